@@ -76,6 +76,8 @@ pub fn apply<'a>(p: Parser<'a>, op: &str, pat: &str, n: usize, as_char: bool) ->
         "parse_bool" => p.parse_bool().map(|(v, q)| (Ret::Bool(v), q)),
         "pm_strip_prefix" | "pm_strip_suffix" | "pm_find_skip" | "pm_rfind_skip" | "pm_trim_start_matches"
         | "pm_trim_end_matches" => Ok(apply_pm(p, op, n)),
+        "into_error" => Err(p.into_error([ErrorKind::Find, ErrorKind::Strip, ErrorKind::ParseBool, ErrorKind::Other][n - 1])),
+        "into_other_error" => Err(p.into_other_error(&"custom")),
         _ => panic!("unknown Parser op {op}"),
     }
 }
@@ -166,6 +168,19 @@ pub fn replay(s: &mut Summary, v: &V) {
                 continue;
             }
             let name = format!("Parser::{op}{}", if as_char { "/char" } else { "" });
+            // beyond the listed properties: error kind of every operation, Display and panic text
+            if out["ok"] == json!(0) {
+                if let Ok(Err(e)) = std::panic::catch_unwind(std::panic::AssertUnwindSafe(|| apply(p, &op, &pat, n, as_char))) {
+                    let m = &out["msg"];
+                    let text = format!("{}{}{}{}", m["pre"].as_str().unwrap(), m["off"], m["mid"].as_str().unwrap(), m["suf"].as_str().unwrap());
+                    s.extra("ParseError::kind", json!(kind_s(e.kind())), &out["xkind"]);
+                    s.extra("ParseError/Display", json!(e.to_string()), &json!(text));
+                    let pm = std::panic::catch_unwind(std::panic::AssertUnwindSafe(|| -> () { e.panic() }))
+                        .err().map(|b| b.downcast_ref::<String>().cloned().or_else(|| b.downcast_ref::<&str>().map(|x| x.to_string())).unwrap_or_default());
+                    // const_panic may wrap the text in a newline
+                    s.extra("ParseError::panic", json!(pm.map(|x| x.trim().to_string())), &json!(Some(text)));
+                }
+            }
             let got = catch(std::panic::AssertUnwindSafe(|| match apply(p, &op, &pat, n, as_char) {
                 Ok((r, q)) => {
                     let mut o = observe(q, orig, base);
@@ -185,7 +200,11 @@ pub fn replay(s: &mut Summary, v: &V) {
             } else {
                 json!({"ok": 0, "off": out["off"], "dir": out["dir"], "kind": out["kind"]})
             };
-            s.check(&name, got, &exp);
+            if op == "into_error" || op == "into_other_error" {
+                s.extra(&name, got, &exp);
+            } else {
+                s.check(&name, got, &exp);
+            }
         }
     }
 }
